@@ -458,10 +458,40 @@ def r4_guards(r, facts):
     r.floor(5)
 
 
+def r7_limited_every_path(r, facts):
+    """LimitedBuf: every method that exposes a pointer/length pair or a capacity is limited on every return path"""
+    METHODS = ('parts', 'parts_mut', 'len', 'spare_capacity', 'total_len', 'total_spare_capacity')
+    n = 0
+    for trait in ('io::traits::Buf', 'io::traits::BufMut', 'io::traits::BufSlice', 'io::traits::BufMutSlice'):
+        for i in facts.impls_of(trait):
+            if not i['self'].startswith('io::traits::LimitedBuf'):
+                continue
+            for it in i['items']:
+                if it['name'] not in METHODS:
+                    continue
+                g = facts.fn_opt(it['path'])
+                if g is None:
+                    continue
+                n += 1
+                rets = ret_exprs(g)
+                r.inst('%s for %s::%s: %d return expression(s)' % (trait.split('::')[-1], i['self'], it['name'], len(rets)), g.where())
+                r.require(bool(rets), 'LimitedBuf::%s/%s' % (it['name'], trait.split('::')[-1]), 'no return expression found (unrecognised form)', g.where())
+                for e in rets:
+                    alts = e[1] if e[0] == 'phi' else [e]
+                    for a in alts:
+                        limited = any(fam.last_field(x) == 'limit' for x in subexprs(a))
+                        # or computed from another (limited) method of the wrapper itself, e.g. self.parts_mut()
+                        own = any(x[0] == 'call' and x[1].split('::')[-1] in METHODS and x[2] and obj(x[2][0]) == 'self' for x in subexprs(a))
+                        r.require(limited or own, 'LimitedBuf::%s/%s/unlimited-path' % (it['name'], trait.split('::')[-1]),
+                                  'a return path of %s exposes the inner buffer without applying self.limit (%s): the kernel may transfer more bytes than the limit' % (it['name'], str(a)[:160]), g.where())
+    r.floor(6, 'LimitedBuf methods')
+
+
 def check(ctx):
     ctx.run('C14.R1', 'LimitedBuf.limit is never narrowed with a truncating cast', r1_limit_casts)
     ctx.run('C14.R2', 'tuples/arrays: element order and coverage in as_iovecs[_mut], set_init shape, totals', r2_order_coverage)
     ctx.run('C14.R3', 'sibling agreement: spare_capacity == parts_mut.1, len == parts.1 (canonical forms)', r3_sibling_agreement)
     ctx.run('C14.R4', 'guard dominance at raw pointer arithmetic (SkipBuf, LimitedBuf iovecs, IoSlice::skip)', r4_guards)
     ctx.run('C14.R5', 'PROV: buffer impls never return pointers into the buffer value itself', addr.prov_rule)
+    ctx.run('C14.R7', 'LimitedBuf: pointer/length/capacity methods (incl. the doc-hidden parts hook) apply the limit on every return path', r7_limited_every_path)
     ctx.run('C14.R6', 'BufMut wrappers forward buffer_init iff parts', c10.r6_forwarding)
